@@ -127,7 +127,8 @@ def options_equal(so, oo):
 
 
 def tensor_sig(T, with_name=True):
-    return (T.name if with_name else None, tuple(T.shape), T.dtype, None if T.scale is None else tuple(T.scale), None if T.zp is None else tuple(T.zp), T.qdim if (T.scale and len(T.scale) > 1) else 0)
+    return (T.name if with_name else None, tuple(T.shape), T.dtype, None if T.scale is None else tuple(T.scale), None if T.zp is None else tuple(T.zp), T.qdim if (T.scale and len(T.scale) > 1) else 0,
+            tuple(T.qmin) if getattr(T, "qmin", None) else None, tuple(T.qmax) if getattr(T, "qmax", None) else None)
 
 
 def live_ops(sg):
